@@ -48,7 +48,9 @@ func (u *Unit) assumePkgInvs(h *Heap, prop string) {
 		env := &SpecEnv{u: u, pkg: u.W.pkgByPath(pi.Pkg), vars: map[string]Val{}, heap: h, oldHeap: h}
 		b, err := env.evalBool(pi.Text)
 		if err != nil {
-			u.W.fail("%s:%d: pkginv %s: %v", pi.File, pi.Line, pi.Name, err)
+			// an invariant that no longer fits the source is not assumed (fewer assumptions: sound);
+			// whatever needed it fails on its own
+			u.softFail("%s:%d: pkginv %s: %v", pi.File, pi.Line, pi.Name, err)
 			continue
 		}
 		u.emit("(assert " + b + ")")
